@@ -4,7 +4,8 @@ package parser
 
 // C19: relaxed mode finds the same rules as strict mode, wherever they are nested.
 //
-//   E  a document that strict mode accepts (no file, group or rule error): Parser.parseNode (relaxed) yields the same
+//   E  a document that strict mode accepts (no file or group error, no rule error of strict mode's own; rules that
+//      parseRule — shared by both modes — flags are kept and compared too): Parser.parseNode (relaxed) yields the same
 //      rules, in the same order, under groups of the same name, as parseGroups (strict) — same type, name, expression,
 //      labels/annotations/for values, Lines and position arguments. Positions are compared through the recording cut
 //      of newYamlNode (harness/C01/nodes.go): equal iff NewPositionRange was called with equal arguments.
@@ -228,8 +229,14 @@ func VerifHarness_Equiv() {
 		}
 		for _, r := range g.Rules {
 			if r.Error.Err != nil {
-				verifReach("strict-rule-error")
-				return
+				// an error of strict mode's own (rule is not a mapping, key filter): the document is not strict-valid.
+				// Such a Rule has no Lines; errors raised by parseRule — which both modes call — carry the rule's lines.
+				if r.Lines.First == 0 {
+					verifReach("strict-rule-error")
+					return
+				}
+				// beyond the property as stated: rules that parseRule itself flags must also be the same entries, in place
+				verifReach("strict-valid-but-parseRule-error")
 			}
 		}
 	}
